@@ -42,6 +42,9 @@ class RowArr:
     def row(self, i):
         return self.f(i if isinstance(i, SR) or not z3.is_expr(i) else SR(i))
 
+    def _at(self, k):
+        return self.row(k)
+
     @property
     def T(self):
         if len(self.tail) == 0:
